@@ -1,4 +1,4 @@
-import Proofs.Lemmas.ForkChoiceInv
+import Proofs.Lemmas.ForkChoiceSim
 import Proofs.Lemmas.ForkChoiceLock
 import Zrnt.ForkChoice.Spec
 /-!
@@ -137,5 +137,29 @@ example : ∀ k, k ≤ 6 → Unpruned (run .none (([
     .init 4 (rt 1) 0 0 ⟨0, rt 1⟩ ⟨0, rt 1⟩ .recording [32, 32], .block (rt 1) (rt 2) 1 0 0, .block (rt 2) (rt 3) 4 1 0,
     .att 0 (rt 3) 4, .justify (rt 1) ⟨1, rt 3⟩ ⟨0, rt 1⟩ (some [32, 33]), .head] : List Op).take k)).1 := by
   decide +kernel
+
+/-- **Checkpoint updates refine the specification (admissible histories: the finalized checkpoint is never moved).**
+Every `UpdateJustified` answer of the model — accepted, or refused because the checkpoint is older/equal, unknown,
+outside the finalized or pinned subtree, below the finalized epoch, or the balance callback failed — and every
+`Justified()`, `Finalized()`, `Pin()`, `SetPin`, block/vote acceptance and head answer equals the specification's,
+position by position (`Refined` lists the operations); the states stay related. In particular a refused update
+changes nothing observable, and the head after an accepted update is the GHOST head for the new epochs and
+balances. -/
+theorem updates_refine_partial (ops : List Op) (ha : Admissible .none ops) :
+    AnswersAgree ops (run .none ops).2 (Spec.run none ops).2 ∧ MRef (run .none ops).1 (Spec.run none ops).1 :=
+  refines_run ops .none none trivial trivial ha
+
+/-- non-vacuity: an admissible history with an accepted justified-only update, a refused one (unknown root) and an
+older one -/
+def histJ : List Op := [
+  .init 4 (rt 1) 0 0 ⟨0, rt 1⟩ ⟨0, rt 1⟩ .recording [32, 32],
+  .block (rt 1) (rt 2) 1 0 0, .block (rt 2) (rt 3) 4 1 0, .att 0 (rt 3) 4,
+  .justify (rt 1) ⟨1, rt 3⟩ ⟨0, rt 1⟩ (some [32, 33]), .just, .head,
+  .justify (rt 1) ⟨2, rt 9⟩ ⟨0, rt 1⟩ (some [1, 1]), .just,
+  .justify (rt 1) ⟨1, rt 2⟩ ⟨0, rt 1⟩ (some [1, 1]), .just, .fin, .pinq]
+
+example : Admissible .none histJ := admissibleB_sound histJ .none (by decide +kernel)
+
+example : (run .none histJ).2 = (Spec.run none histJ).2 := by decide +kernel
 
 end Zrnt.Proofs.C10
